@@ -148,20 +148,21 @@ def check(tier):
                 "input": "", "out": 0, "kind": "", "scenario": ""}
         base.update({k: v for k, v in e.items() if k in base})
         thr.append(base)
-    sched = [e for e in thr if e["event"] in ("Run", "Sched")]
-    acq = [i for i, e in enumerate(sched) if e["action"] == "SuppressAcquire"]
-    sched = sched[:(acq[2] + 50 if len(acq) > 2 else 400)]
-    bad = [dict(e) for e in sched]
-    idx = [i for i, e in enumerate(bad) if e["action"] == "SuppressAcquire"]
-    if len(idx) >= 2:
-        del bad[idx[0]]                               # a missing event
-        bad[idx[1] - 1]["suppress"] += 1             # a counter that the code did not produce
-    write_ndjson(os.path.join(d, "bad.ndjson"), bad + [dict(norm[-1])])
-    write_ndjson(os.path.join(d, "good.ndjson"), sched + [dict(norm[-1])])
-    bout, _ = tlc("PurityTrace", "PurityTrace.cfg", env={"TRACE": os.path.join(d, "bad.ndjson")}, workers=1, deque=True)
-    gout, _ = tlc("PurityTrace", "PurityTrace.cfg", env={"TRACE": os.path.join(d, "good.ndjson")}, workers=1, deque=True)
-    if len(idx) < 2 or len(tuples(bout, "REJECT")) < len(tuples(gout, "REJECT")) + 2:
-        raise ToolError("C11 selftest: removed / corrupted hook events not rejected")
+    sched = [e for e in thr if e["event"] in ("Run", "Sched")][:300]
+    only = [i for i, e in enumerate(sched) if e["event"] == "Sched"]
+    if len(only) < 40:
+        raise ToolError("C11 selftest: the threaded run recorded fewer than 40 hook events")
+    end = [dict(norm[-1])]
+    bad1 = [dict(e) for e in sched]; del bad1[only[10]]                       # a missing event: the numbering has a gap
+    bad2 = [dict(e) for e in sched]; bad2[only[20]]["suppress"] += 1          # a counter value the code did not produce
+    bad3 = [dict(e) for e in sched]; bad3[only[30]]["present"] = not bad3[only[30]]["present"]
+    nrej = []
+    for name, tr in (("good", sched), ("bad1", bad1), ("bad2", bad2), ("bad3", bad3)):
+        write_ndjson(os.path.join(d, name + ".ndjson"), tr + end)
+        o_, _ = tlc("PurityTrace", "PurityTrace.cfg", env={"TRACE": os.path.join(d, name + ".ndjson")}, workers=1, deque=True)
+        nrej.append(len(tuples(o_, "REJECT")))
+    if not all(x > nrej[0] for x in nrej[1:]):
+        raise ToolError(f"C11 selftest: removed / corrupted hook events not rejected (rejections good/bad: {nrej})")
     c = tuples(tout, "COUNTS")
     nsched = sum(1 for e in norm if e["event"] == "Sched"); nres = sum(1 for e in norm if e["event"] == "Result")
     acts = {}
